@@ -4,6 +4,7 @@
   (Start-up validation of tags / unknown keys is checked by the `loadcfg` correspondence runs.)
 -/
 import MosVerif.Props.C10Pins
+import MosVerif.Lemmas.TranslatedC10
 import MosVerif.Lemmas.RouterBasic
 import MosVerif.Lemmas.RouterSpecMain
 import MosVerif.Model.RouterIO
@@ -144,7 +145,7 @@ theorem routing_meets_spec_started (c : LoadCfg.Cfg) (env : Env) (m : Msg) (hc :
     RouterIO.spec env m ⟨(handle env m).resp, (handle env m).forwards⟩ = "ok" := by
   refine spec_model env m hq ?_
   intro ru hru
-  simp only [LoadCfg.acceptsFull, Bool.and_eq_true, List.all_eq_true, decide_eq_true_eq] at hc
+  simp only [LoadCfg.acceptsFull, Bool.and_eq_true, List.all_eq_true, LoadCfg.rejectInRange, decide_eq_true_eq] at hc
   have := hc.1.2 ru.reject (by rw [← hrules]; exact List.mem_map_of_mem hru)
   omega
 
@@ -247,7 +248,7 @@ example : LoadCfg.acceptsFull { upstreams := [("u0", true)], domainSets := [], r
     no rule / no action, strict configuration decoding and the tag checks at start-up. -/
 theorem pins :
     Facts.rule_first_break = 1 ∧ Facts.rule_reverse = "matched = !matched" ∧
-    Facts.rule_reject_cond = "rejectRCode > 0" ∧ Facts.rule_nomatch_cond = "matchedRule == nil" ∧
+    Facts.rule_nomatch_cond = "matchedRule == nil" ∧
     Facts.rule_noupstream_cond = "matchedRule.upstream == nil" ∧ Facts.cfg_error_unused = 1 ∧
     Facts.rule_unknown_domain = "m == nil" ∧ Facts.rule_unknown_upstream = "u == nil" ∧
     Facts.ds_dup_tag = "_, dup := r.domainSets[cfg.Tag]" ∧ Facts.up_dup_tag = "_, dup := r.upstreams[cfg.Tag]" := by decide
